@@ -305,3 +305,81 @@ func VerifC11EventsNative() {
 	}
 	v.Assert("C11.one-milestone-per-stage", n == want)
 }
+
+// VerifC17WithChannel: with an event channel attached, every entry point still returns (a report or
+// an error) whatever stage fails - it does not panic, also not on a close of the channel.
+func VerifC17WithChannel() {
+	ep := v.Choice("entry", 5)
+	prof := verifProfiles[v.Choice("profile", len(verifProfiles))]
+	ch := make(chan e.Event, 64)
+	v.Scope("v")
+	panicked, msg := verifGuard(func() {
+		switch ep {
+		case 0:
+			Validate(prof, "<<data>>", false, &ch)
+		case 1:
+			ValidateWithConfiguration(prof, "<<data>>", false, &ch, c.TestValidationConfiguration{}, c.DefaultReportConfiguration())
+		default:
+			compiled, cerr := CompileProfile(prof, false, &ch)
+			if cerr != nil {
+				return
+			}
+			if ep == 2 {
+				ValidateCompiled(compiled, "<<data>>", false, &ch)
+			} else if ep == 3 {
+				ValidateCompiledWithConfiguration(compiled, "<<data>>", false, &ch, c.TestValidationConfiguration{}, c.DefaultReportConfiguration())
+			}
+		}
+	})
+	v.Reach("returned")
+	_ = msg
+	v.Assert("C17.no-panic.with-channel", !panicked)
+}
+
+// VerifC17WithChannelNative replays with witness inputs for the recorded stage outcomes.
+func VerifC17WithChannelNative() {
+	ep := v.ReplayInt("entry")
+	prof := verifProfiles[v.ReplayInt("profile")]
+	if v.ReplayBool("flag:v.compile.err") {
+		prof = verifCompileErrProfile
+	}
+	data := `{"@id": "http://x/a", "@type": "http://a.ml/vocabularies/apiContract#EndPoint"}`
+	if v.ReplayBool("flag:v.flatten.empty") {
+		data = `{"@context": {"ex": "http://example.org/"}}`
+	}
+	if v.ReplayBool("flag:v.decode.err") {
+		data = "not json"
+	} else if v.ReplayBool("flag:v.flatten.err") {
+		data = `{"@context": 42, "@id": "x"}`
+		if v.ReplayBool("flag:v.flatten.panic") {
+			data = `{"@context": {"@protected": 5, "apiContract": "http://a.ml/vocabularies/apiContract#"}, "@id": "http://x/a", "@type": "apiContract:EndPoint"}`
+		} else if v.ReplayBool("flag:v.flatten.plain") {
+			data = `{"@id": "http://example.com/g", "@graph": "http://example.com/x"}`
+		}
+	}
+	if v.ReplayBool("flag:v.eval.err") {
+		prof = verifEvalErrProfile
+	} else if v.ReplayBool("flag:v.eval.empty") {
+		prof = verifReportFailProfile
+	}
+	ch := make(chan e.Event, 64)
+	panicked, _ := verifGuard(func() {
+		switch ep {
+		case 0:
+			Validate(prof, data, false, &ch)
+		case 1:
+			ValidateWithConfiguration(prof, data, false, &ch, c.TestValidationConfiguration{}, c.DefaultReportConfiguration())
+		default:
+			compiled, cerr := CompileProfile(prof, false, &ch)
+			if cerr != nil {
+				return
+			}
+			if ep == 2 {
+				ValidateCompiled(compiled, data, false, &ch)
+			} else if ep == 3 {
+				ValidateCompiledWithConfiguration(compiled, data, false, &ch, c.TestValidationConfiguration{}, c.DefaultReportConfiguration())
+			}
+		}
+	})
+	v.Assert("C17.no-panic.with-channel", !panicked)
+}
